@@ -1045,7 +1045,9 @@ class VectorSerializer(Generic[T, T_NP], TypeSerializer[list[T], np.object_]):
         return [self._element_serializer.read(stream) for _ in range(length)]
 
     def read_numpy(self, stream: CodedInputStream) -> np.object_:
-        return np.object_(self.read(stream))  # pyright: ignore [reportReturnType]
+        # the list itself, as the NDJSON converter does: np.object_() would turn it into an
+        # array, and a list of equally long lists or arrays into a multi-dimensional one
+        return cast(np.object_, self.read(stream))
 
 
 TKey = TypeVar("TKey")
